@@ -161,6 +161,10 @@ class XModel:
                        ('exprReplacement', None)):
             v.fields.setdefault(f, val)
         v.fields.setdefault('scope', Vec([('str', '')]))
+        if isinstance(v.fields.get('scope'), Vec) and not v.fields['scope'].items:
+            v.fields['scope'].items.append(('str', ''))      # the traversal has entered the program: global scope
+        elif not isinstance(v.fields.get('scope'), Vec):
+            v.fields['scope'] = Vec([('str', '')])
         return v
 
     def visit_pre(self, visitor, node):
